@@ -129,12 +129,20 @@ def shapeAxis (sh : Shape) : AxisD :=
 
 def AxisD.comp (a b : AxisD) : AxisD := ⟨a.rate && b.rate, a.t0 && b.t0, a.unit && b.unit⟩
 
+/-- the descriptor of one construction site, looked up by its key in the generated list (a site
+that no longer exists in the source gives `none`, never a build failure) -/
+def siteAxis (key : String) : Option AxisD :=
+  (Nitime.Generated.SeriesCalls.all.find? fun c => c.key == key).map fun c => shapeAxis c.shape
+
 /-- descriptors each method goes through (fir: its own re-wrapping, then `filtfilt` on it) -/
 def methodAxis : String → Option AxisD
-  | "fir" => some ((shapeAxis FilterAnalyzer_fir_0.shape).comp (shapeAxis FilterAnalyzer_filtfilt_0.shape))
-  | "iir" => some (shapeAxis FilterAnalyzer_filtfilt_0.shape)
-  | "filtered_fourier" => some (shapeAxis FilterAnalyzer_filtered_fourier_0.shape)
-  | "filtered_boxcar" => some (shapeAxis FilterAnalyzer_filtered_boxcar_0.shape)
+  | "fir" => do
+      let a ← siteAxis "FilterAnalyzer.fir.0"
+      let b ← siteAxis "FilterAnalyzer.filtfilt.0"
+      pure (a.comp b)
+  | "iir" => siteAxis "FilterAnalyzer.filtfilt.0"
+  | "filtered_fourier" => siteAxis "FilterAnalyzer.filtered_fourier.0"
+  | "filtered_boxcar" => siteAxis "FilterAnalyzer.filtered_boxcar.0"
   | _ => none
 
 -- ------------------------------------------------------------------ driver
